@@ -221,14 +221,13 @@ func outsClassify(b, a nebula.VerifOutsideDigest, udp []nebula.VerifOutsidePkt, 
 			}
 		}
 	}
-	// the learned underlay address of a peer is written by roaming (HostInfo.SetRemote -> RemoteList.LearnRemote)
+	// the learned underlay address of a peer is written by roaming (HostInfo.SetRemote -> RemoteList.LearnRemote) and
+	// by the handshake manager (beginHandshake learns the source of a stage-1 packet)
 	if b.LHLearned != a.LHLearned && !closed && !opened && mask&(1<<outsERoam) == 0 {
-		set(outsEOther)
-		note("learned addresses changed without roaming: %q -> %q", b.LHLearned, a.LHLearned)
+		set(outsEHS)
 	}
 	if remotesChanged && !closed && !opened && mask&(1<<outsERoam) == 0 && b.LH == a.LH {
-		set(outsEOther)
-		note("a tunnel's address list changed without roaming or lighthouse update")
+		set(outsEHS)
 	}
 	if b.RelayUsed != a.RelayUsed {
 		set(outsELive)
@@ -243,7 +242,7 @@ func outsClassify(b, a nebula.VerifOutsideDigest, udp []nebula.VerifOutsidePkt, 
 	if b.LH != a.LH && !closed && !opened {
 		set(outsELH)
 	}
-	if b.Conntrack != a.Conntrack && len(tun) == 0 {
+	if b.Conntrack != a.Conntrack && len(tun) == 0 && !opened { // a completed handshake flushes the packets queued for it
 		set(outsEOther)
 		note("conntrack changed without delivery")
 	}
@@ -283,6 +282,10 @@ func outsClassify(b, a nebula.VerifOutsideDigest, udp []nebula.VerifOutsidePkt, 
 			set(outsECtl)
 		case t == header.Handshake:
 			set(outsEHS)
+		case t == header.Test && s == header.TestRequest:
+			set(outsEHS) // handleCheckAndCompleteError probes the existing tunnel when it refuses a handshake
+		case t == header.Message && s == header.MessageNone && opened:
+			set(outsEHS) // packets queued for the handshake that just completed
 		default:
 			set(outsEOther)
 			note("output of type %d/%d to %s", t, s, p.To)
@@ -410,7 +413,7 @@ func (l *outsLab) payloadFor(ty, st int, peer netip.Addr) []byte {
 	case ty == 5:
 		return []byte{}
 	case ty == 6 && st == 0:
-		from := netip.AddrFrom4([4]byte{10, 128, 0, byte(100 + l.seq%100)})
+		from := netip.AddrFrom4([4]byte{10, 130 + byte(l.seq>>16), byte(l.seq >> 8), byte(l.seq)}) // a relay peer never seen before
 		return nebula.VerifOutsideCtlRequest(uint32(0x51000000+l.seq), from, l.x.vpn)
 	default:
 		return l.c.RandBytes(8 + l.c.Intn(24))
@@ -715,6 +718,28 @@ func (l *outsLab) finish(r outsRow, mask uint32, notes []string, desc map[string
 	return outsShot{row: r, mask: mask, notes: notes, desc: desc, panic_: pn}
 }
 
+// evalShort injects a datagram of n < 16 random bytes.
+func (l *outsLab) evalShort(n int, relayed bool) uint32 {
+	x := l.x
+	pkt := l.c.RandBytes(n)
+	x.ClearIn()
+	x.DrainUDP()
+	x.DrainTun()
+	before := x.Digest()
+	var pn string
+	if relayed {
+		pn = x.InjectRelayed(l.relayRec(outsR, nebula.VerifOutsideTerminalType).Local, pkt)
+	} else {
+		pn = x.Inject(l.srcAddr(l.c.Chance(0.5)), pkt)
+	}
+	udp, tun := x.DrainUDP(), x.DrainTun()
+	mask, _ := outsClassify(before, x.Digest(), udp, tun, nil)
+	if pn != "" {
+		mask |= 1 << outsEOther
+	}
+	return mask
+}
+
 // ---- gen_outside ------------------------------------------------------------------------------------------------
 
 func outsGen(c *hx.Ctx) {
@@ -740,6 +765,18 @@ func outsGen(c *hx.Ctx) {
 		}
 		panic("gen_outside: concretisations of one row disagree (the abstraction is too coarse):\n" + strings.Join(disagree, "\n"))
 	}
+	// datagrams shorter than a header: no row (nothing can be parsed), one entry
+	shortMask, first := uint32(0), true
+	for _, n := range []int{0, 1, 2, 7, 15} {
+		for _, relayed := range []bool{false, true} {
+			m := lab.evalShort(n, relayed)
+			if first {
+				shortMask, first = m, false
+			} else if m != shortMask {
+				panic(fmt.Sprintf("gen_outside: short datagrams disagree: %v vs %v", outsMaskNames(shortMask), outsMaskNames(m)))
+			}
+		}
+	}
 	ds, da := nebula.VerifOutsideDefaultRecvError(outsLogger("cfg"))
 	var sb strings.Builder
 	sb.WriteString("(* GENERATED from /repo/outside.go by harness gen_outside: do not edit.\n" +
@@ -753,6 +790,7 @@ func outsGen(c *hx.Ctx) {
 	fmt.Fprintf(&sb, "(* what an empty configuration selects for listen.send_recv_error / listen.accept_recv_error: %s / %s *)\n", ds, da)
 	fmt.Fprintf(&sb, "Definition default_send_recv_error_always : bool := %s.\nDefinition default_accept_recv_error_always : bool := %s.\n\n",
 		hx.Bool(ds == "always"), hx.Bool(da == "always"))
+	fmt.Fprintf(&sb, "(* a datagram shorter than the 16 header bytes (lengths 0, 1, 2, 7, 15; direct and as a relayed payload) *)\nDefinition tab_short : N := %d.\n\n", shortMask)
 	sb.WriteString("(* effect bits: ")
 	for i, n := range outsENames {
 		fmt.Fprintf(&sb, "%d=%s ", i, n)
